@@ -48,13 +48,16 @@ extern ssize_t mpt_array_push(MPT_STRUCT(encode_array) *arr, size_t len, const v
 			return MPT_ERROR(BadType);
 		}
 		max = arr->_state.done + arr->_state.scratch;
-		if (!(dest = mpt_array_insert(&arr->_d, max, len))) {
+		/* consumed data may still precede the live part */
+		add = b ? b->_used : 0;
+		if (add < max) {
+			return MPT_ERROR(BadArgument);
+		}
+		if (!(dest = mpt_array_insert(&arr->_d, add, len))) {
 			return MPT_ERROR(MissingBuffer);
 		}
-		b = arr->_d._buf;
 		memcpy(dest, data, len);
 		arr->_state.scratch += len;
-		b->_used = max + len;
 		
 		return len;
 	}
